@@ -20,6 +20,7 @@ import (
 	"strconv"
 	"strings"
 	"sync"
+	"sync/atomic"
 	"testing"
 	"time"
 
@@ -494,9 +495,121 @@ func TestVerifHubRecord(t *testing.T) {
 			enc.Encode(map[string]interface{}{"ev": "Final", "state": whNorm(st, names, rooms), "st": st})
 			h.stop()
 		}
+	} // Directed trace: the room broadcast is held inside its first trySend (the hook runs there, on the
+	// hub loop) while every member calls LeaveRoom.  Same hooks, same trace specification: a message
+	// queued for a connection after its RoomRemove is a TrySend outside the room's membership.
+	for rep := 0; rep < 2; rep++ {
+		var emu sync.Mutex
+		var events []map[string]interface{}
+		known := map[*Connection]string{}
+		gate := make(chan struct{})
+		reached := make(chan struct{}, 1)
+		var once sync.Once
+		var inCast, armed atomic.Bool
+		VerifHook = func(name string, a ...interface{}) {
+			e := map[string]interface{}{"ev": name}
+			for _, x := range a {
+				switch v := x.(type) {
+				case *Connection:
+					id, ok := known[v]
+					if !ok {
+						return
+					}
+					e["c"] = id
+				case string:
+					if name == "Send" {
+						e["res"] = v
+					} else {
+						e["r"] = v
+					}
+				case bool:
+					switch name {
+					case "Reg", "RoomAdd":
+						e["ok"] = v
+					case "Unreg1":
+						e["found"] = v
+					case "TrySend":
+						e["queued"] = v
+					}
+				}
+			}
+			emu.Lock()
+			events = append(events, e)
+			emu.Unlock()
+			switch name {
+			case "RoomCastBegin":
+				inCast.Store(true)
+			case "RoomCastEnd":
+				inCast.Store(false)
+			case "TrySend":
+				if armed.Load() && inCast.Load() {
+					once.Do(func() { reached <- struct{}{}; <-gate })
+				}
+			}
+		}
+		h := newWhHarness(cfg, names, rooms, socks)
+		for _, n := range names {
+			known[h.conns[n]] = n
+		}
+		r := rooms[rep%len(rooms)]
+		var in []*Connection
+		for _, n := range names {
+			c := h.conns[n]
+			h.hub.register <- c
+			h.hub.unregister <- h.dummy
+			h.hub.unregister <- h.dummy
+			h.hub.connMu.RLock()
+			ok := h.hub.connections[c]
+			h.hub.connMu.RUnlock()
+			if ok {
+				c.JoinRoom(r)
+				if room, exists := h.hub.GetRoomManager().GetRoom(r); exists && room.Has(c) {
+					in = append(in, c)
+				}
+			}
+		}
+		status := "ok"
+		armed.Store(true)
+		h.hub.BroadcastToRoom(r, []byte("m"), nil)
+		held := false
+		select {
+		case <-reached:
+			held = true
+		case <-time.After(2 * time.Second):
+		}
+		left := make(chan struct{}, len(in))
+		for _, c := range in {
+			go func(c *Connection) { c.LeaveRoom(r); left <- struct{}{} }(c)
+		}
+		if held {
+			// while the broadcast holds the room, no LeaveRoom can finish: give them time to try
+			time.Sleep(300 * time.Millisecond)
+			close(gate)
+		}
+		for range in {
+			select {
+			case <-left:
+			case <-time.After(10 * time.Second):
+				status = "hang"
+			}
+		}
+		if status == "ok" {
+			h.barrier()
+		}
+		emu.Lock()
+		evs := append([]map[string]interface{}{}, events...)
+		emu.Unlock()
+		enc.Encode(map[string]interface{}{"ev": "Reset", "status": status})
+		for _, e := range evs {
+			enc.Encode(e)
+		}
+		if status == "ok" {
+			st := h.project()
+			enc.Encode(map[string]interface{}{"ev": "Final", "state": whNorm(st, names, rooms), "st": st})
+			h.stop()
+		}
 	}
 }
-
 
 // Burst recorder: many connections released at the same instant onto one operation (join a
 // nearly full room, register at the connection limit), round after round; same hooks, same trace.
